@@ -10,6 +10,7 @@ import (
 	"runtime"
 	"sort"
 	"strings"
+	"time"
 
 	"github.com/mithrandie/csvq/lib/option"
 	"github.com/mithrandie/csvq/lib/query"
@@ -181,16 +182,26 @@ func run(seed int64, n int, dir string, _ []string) {
 	// slices, every --cpu value twice (stages.go) ----
 	quick := os.Getenv("VERIF_TIER") != "thorough"
 	g2 := hc.NewGen(seed*7919 + 12)
-	for r := 0; r < 1+n/1000; r++ {
+	t0 := time.Now()
+	lap := func(what string) {
+		if os.Getenv("C12_TIMING") != "" {
+			fmt.Fprintf(os.Stderr, "%-10s %6.2fs\n", what, time.Since(t0).Seconds())
+		}
+		t0 = time.Now()
+	}
+	defer func() { lap("programs") }()
+	for r := 0; r < 1+n/1500; r++ {
 		runStages(g2, o, scratch, r, quick)
 	}
+	lap("stages")
 
 	// ---- session flags that keep state or caches: value.StrToTime under user formats against the model
 	// (c12.strtotime), programs under flag settings at every --cpu value, every row against itself alone (flags.go) ----
 	runStrToTime(g2, o, n/3+20)
-	for r := 0; r < 1+n/1000; r++ {
+	for r := 0; r < 1+n/1500; r++ {
 		runFlags(g2, o, scratch, r)
 	}
+	lap("flags")
 
 	// ---- same program, every --cpu value, twice: results and written files must be identical ----
 	rounds := n / 150
